@@ -139,7 +139,7 @@ struct J
   // keys whose values must be printed as integers whatever the style (schema type "integer")
   static bool int_key(const std::string &k)
   {
-    return k == "random number seed" || k == "number of points in spline" || k == "compositions" || k == "orientation operation"
+    return k == "random number seed" || k == "number of points in spline" || k == "compositions" || k == "coordinate" || k == "orientation operation"
            || k == "dim" || k == "n_cell_x" || k == "n_cell_y" || k == "n_cell_z" || k == "compositions_n";
   }
   void dump_to(std::string &out, const Style &st, int level, bool force_int, unsigned &cnt) const
